@@ -752,7 +752,11 @@ func c02RunJump(co *caseOut, in c02Input) error {
 		} else if k == 0 {
 			stage = "none"
 		}
-		co.violation(kind, fmt.Sprintf("%s/%s stage=%s: after batch %d: %s", kind, class, stage, k, note), vin, map[string]any{"k": k, "class": class, "stage": stage})
+		next := "end"
+		if k >= 0 && k < len(stages) {
+			next = stages[k]
+		}
+		co.violation(kind, fmt.Sprintf("%s/%s stage=%s: after batch %d (next=%s): %s", kind, class, stage, k, next, note), vin, map[string]any{"k": k, "class": class, "stage": stage, "next": next})
 	}
 	src, err := c02NewSyncSrc(b)
 	if err != nil {
